@@ -333,7 +333,18 @@ def gen_overload(rng, cap, nsched):
     size = rng.choice([cap - 1, cap - 1, cap // 2 + 1])
     burst = [("a", size)] * n
     tail = [("a", x) for x in gen_lens(rng, cap, rng.randint(0, 2), "mixed")]
-    if rng.random() < 0.5:
+    r = rng.random()
+    if r < 0.35:
+        # TWO overloads close together: the back-end gets the whole first burst in one pass (schedules that let it run
+        # until it waits again), then the front-end queues a second burst of the same size - every discarded stretch needs
+        # its own announcement, however soon after the previous one it happens
+        n2 = rng.choice([26, 27, 28])
+        main = burst + ["start"] + [("a", size)] * n2 + tail + ["stop"]
+        b = 1                                   # the back-end thread (no appending threads in this program)
+        scheds = [[b] * k for k in (6, 12, 24, 48, 96)]
+        rng.shuffle(scheds)
+        return ACase(main, [], scheds[:max(nsched, 2)])
+    if r < 0.68:
         main = burst + ["start"] + tail + (["stop"] if rng.random() < 0.7 else [])
     else:
         main = ["start"] + burst + tail + (["stop"] if rng.random() < 0.7 else [])
